@@ -66,7 +66,8 @@ class cpu_limit:
         def handler(signum, frame):
             raise CpuTimeout('more than %d s of CPU time' % self.seconds)
         self.old = signal.signal(signal.SIGVTALRM, handler)
-        signal.setitimer(signal.ITIMER_VIRTUAL, self.seconds)
+        # repeating: code under test may swallow the first exception in a generic handler and loop again
+        signal.setitimer(signal.ITIMER_VIRTUAL, self.seconds, max(10.0, self.seconds / 4.0))
         return self
 
     def __exit__(self, *a):
